@@ -82,6 +82,13 @@ fn main() {
             let p = |i: usize| args[i].parse::<u64>().unwrap();
             engine::trace_main(prop, env_u64("VERIF_SEED").unwrap_or(engine::DEFAULT_SEED), p(3), p(4), p(5));
         }
+        "c19-kill" => {
+            props::c19::kill_child_main(&args[2], args[3].parse().unwrap(), args[4].parse().unwrap(), &args[5]);
+        }
+        "c19-validate" => {
+            let n: u64 = args.get(2).and_then(|x| x.parse().ok()).unwrap_or(40);
+            std::process::exit(props::c19::validate_main(n, env_u64("VERIF_SEED").unwrap_or(engine::DEFAULT_SEED)));
+        }
         x => {
             eprintln!("unknown command {}", x);
             std::process::exit(2);
